@@ -102,7 +102,10 @@ def shards(tier, seed):
     for fi in range(len(THREAD_FORMS)):
         for start in (0, 1):
             for lo, hi in ((0, 300), (300, 600), (600, 900), (900, 10 ** 9)):      # (first deviating point of the schedule: a shard each)
-                out.insert(0, ('threads', fi, start, 2 if (tier == 'thorough' and fi == 0) else 1, (lo, hi)))
+                out.insert(0, ('threads', fi, start, 1, (lo, hi)))
+            if tier == 'thorough':
+                for lo, hi in ((0, 40), (40, 80), (80, 120), (120, 10 ** 9)):
+                    out.insert(0, ('threads', fi, start, 2, (lo, hi)))
     # seed extension: another (limit, threshold) pair, enumerated just as exhaustively
     out.append(('plain', 3 + seed % 9, 2 + seed % 6, 'raw', tier))
     out.append(('plain', 3 + seed % 9, 2 + seed % 6, 'urlencoded', tier))
@@ -561,12 +564,12 @@ def _post_form(app, body):
     return wsgi.call(app, wsgi.environ('POST', '/f', body=body, ctype='multipart/form-data; boundary=BND'))
 
 
-def run_form_threads(om, fi, prefix):
+def run_form_threads(om, fi, prefix, gran='line'):
     from vf.sched import Scheduler
     app = _form_app(om)
     bodies = [_form_body(f, t) for f, t in zip(THREAD_FORMS[fi], 'xy')]
     sp = _src_prefix()
-    return Scheduler([lambda b=b: _post_form(app, b) for b in bodies], prefix, lambda fn: fn.startswith(sp) or fn == HERE).run()
+    return Scheduler([lambda b=b: _post_form(app, b) for b in bodies], prefix, lambda fn: fn.startswith(sp) or fn == HERE, granularity=gran).run()
 
 
 def solo_forms(fi):
@@ -597,7 +600,8 @@ def work_form_threads(spec):
     res = core.new_result()
     c = res['counters']
     solo = solo_forms(fi)
-    for prefix, x in explore(lambda p: run_form_threads(sut.load(fresh=True), fi, p), bound, base=(start,), first_points=fp):
+    gran = 'call' if bound >= 2 else 'line'       # two preemptions: scheduling points at function entries (source lines would be ~400 k schedules)
+    for prefix, x in explore(lambda p: run_form_threads(sut.load(fresh=True), fi, p, gran), bound, base=(start,), first_points=fp):
         res['states'] += 1
         res['transitions'] += len(x.points)
         res['execs'] += 1
@@ -607,7 +611,7 @@ def work_form_threads(spec):
         v = judge_form_threads(fi, x, solo)
         res['outcomes'].add('form threads ' + ('ok' if v is None else v[0]))
         if v is not None:
-            core.add_violation(res, {'kind': 'threads', 'forms': fi, 'choices': list(x.choices)},
+            core.add_violation(res, {'kind': 'threads', 'forms': fi, 'choices': list(x.choices), 'gran': gran},
                                f'two multipart forms on two threads of one application, {x.switches} switches: {v[1]}', sig=v[0])
     sut.load(fresh=True)
     core.add_sample(res, {'kind': 'threads', 'forms': [list(map(list, f)) for f in THREAD_FORMS[fi]], 'solo_answers': [s[0] for s in solo], 'first_thread': start,
@@ -628,7 +632,7 @@ def work(spec):
 def replay(case):
     if case.get('kind') == 'threads':
         solo = solo_forms(case['forms'])
-        x = run_form_threads(sut.load(fresh=True), case['forms'], case['choices'])
+        x = run_form_threads(sut.load(fresh=True), case['forms'], case['choices'], case.get('gran', 'line'))
         v = judge_form_threads(case['forms'], x, solo)
         sut.load(fresh=True)
         return None if v is None else f'two multipart forms on two threads of one application under the schedule with {x.switches} switches: {v[1]}'
